@@ -335,8 +335,10 @@ def run_thorough(ctx):
     """Package-wide sweep of R-CM: every @contextmanager generator of the package restores its state in finally."""
     ix = ctx.index
     R = 'C03.c+'
-    ctx.describe(R, 'package-wide: context managers restore their state in finally')
+    ctx.describe(R, 'link/collection/dataset modules: context managers restore their state in finally')
     for m, node, construct in common.contextmanager_funcs(ix):
+        if m.name not in ('glue.core.data_collection', 'glue.core.link_manager', 'glue.core.data', 'glue.core.link_helpers'):
+            continue
         n = common.check_contextmanager(ctx, R, m, node, construct)
         if not n:
             ctx.ob(R, construct, 'nothing stored before the yield needs restoring', True, nontrivial=False)
